@@ -508,6 +508,9 @@ func (e *Exec) execRangeString(st *State, x *ast.RangeStmt, label string, bindVa
 		s2.assume(mkAnd(mkLe(tZero, b), mkLe(b, mkInt64(255))))
 		s2.assume(mkIte(mkLt(b, mkInt64(0x80)), mkAnd(mkEq(c, b), mkEq(w, tOne)),
 			mkAnd(mkGe(c, mkInt64(0x80)), mkLe(tOne, w), mkLe(w, mkInt64(4)), mkLe(mkAdd(i, w), strLen(s)))))
+		// the bytes skipped by a multi-byte rune are UTF-8 continuation bytes (>= 0x80)
+		kv := mkVar("x!utf8", SInt)
+		s2.assume(mkForall([]*Term{kv}, mkImplies(mkAnd(mkLt(i, kv), mkLt(kv, mkAdd(i, w))), mkGe(strByte(s, kv), mkInt64(0x80))), strByte(s, kv)))
 		s2.store[wcell] = Scalar{w, intT}
 		bindVar(s2, x.Key, Scalar{i, intT})
 		if x.Value != nil {
@@ -523,7 +526,7 @@ func (e *Exec) execRangeString(st *State, x *ast.RangeStmt, label string, bindVa
 		i := asTerm(s2.store[idx])
 		return mkAnd(mkLe(tZero, i), mkLe(i, strLen(s)))
 	}
-	e.assumptions["range over string is modelled per byte for ASCII runes; multi-byte runes advance by 1..4 bytes (UTF-8 decoding not modelled)"] = true
+	e.assumptions["range over string is modelled per byte for ASCII runes; multi-byte runes advance by 1..4 bytes over continuation bytes >= 0x80 (UTF-8 decoding not modelled further)"] = true
 	return e.withHiddenIndex(x, idx, func() []Outcome { return e.loopCut(st, d) })
 }
 
